@@ -159,4 +159,48 @@ def micro (F : Nat) (i : Nat) (s : SNode V) : Graph V × List V → Micro V → 
 def microRun (F : Nat) (i : Nat) (s : SNode V) (st : Graph V × List V) (ms : List (Micro V)) : Graph V × List V :=
   ms.foldl (micro F i s) st
 
+/-! ### the critical section is not one step: a fine-grained locked system
+
+    Shared state of any type `σ`.  Inside its critical section the lock owner performs ANY number of
+    micro-steps, each an arbitrary transformer of the shared state (chosen by the owner; it may
+    capture the owner's local data); what the lock facts establish for the three entry points is
+    that every access to the shared state lies between `Lock` and `Unlock`, i.e. that only a
+    client in `crit` ever performs a micro-step.  Ghost fields of `crit`: the shared state at
+    acquisition and the micro-steps performed so far. -/
+
+inductive GPc (σ : Type) where
+  | idle
+  | waiting
+  | crit (start : σ) (trace : List (σ → σ))
+
+def GPc.isCrit {σ : Type} : GPc σ → Bool
+  | .crit _ _ => true
+  | _ => false
+
+structure GSys (σ : Type) where
+  g : σ
+  lock : Option Tid
+  pc : Tid → GPc σ
+
+inductive GStep {σ : Type} : GSys σ → GSys σ → Prop
+  | request (s : GSys σ) (t : Tid) : s.pc t = .idle → GStep s { s with pc := upd s.pc t .waiting }
+  | acquire (s : GSys σ) (t : Tid) : s.pc t = .waiting → s.lock = none →
+      GStep s { s with lock := some t, pc := upd s.pc t (.crit s.g []) }
+  | micro (s : GSys σ) (t : Tid) (start : σ) (tr : List (σ → σ)) (f : σ → σ) : s.pc t = .crit start tr →
+      GStep s { s with g := f s.g, pc := upd s.pc t (.crit start (tr ++ [f])) }
+  | release (s : GSys σ) (t : Tid) (start : σ) (tr : List (σ → σ)) : s.pc t = .crit start tr →
+      GStep s { s with lock := none, pc := upd s.pc t .idle }
+
+inductive GExec {σ : Type} (g0 : σ) : GSys σ → Prop
+  | init : GExec g0 { g := g0, lock := none, pc := fun _ => .idle }
+  | step {s s' : GSys σ} : GExec g0 s → GStep s s' → GExec g0 s'
+
+/-- the micro-steps of `Artifact(i)` on an outdated struct node `s`, as the owner performs them
+    starting in state `g`: one `.Value()` pull per dependency (each followed by reading the value
+    the owner keeps locally), then the store with the values read -/
+def artifactTrace (F : Nat) (i : Nat) (s : SNode V) : Graph V → List Nat → List V → List (Graph V → Graph V)
+  | _, [], vals => [fun g => g.set i (.struct (s.executed g vals))]
+  | g, d :: ds, vals =>
+    (fun g => (Eval F g d).1) :: artifactTrace F i s (Eval F g d).1 ds (vals ++ [val (Eval F g d).1 d])
+
 end PolyVerif.Linz
